@@ -922,8 +922,10 @@ def mux_first_match(prog: Program, run: Run, R: str = "C01.R4") -> None:
             elif assigns:
                 how = "last"
             pick[side] = (how, lp.lineno)
-    if len(pick) < 2:
-        raise AnalysisError("Multiplexer: case selection loops over self.cases not found")
+    # a side whose selection is written in another way (a generator consumed with next(), a
+    # helper) is not judged: only a recognised first / last disagreement is reported
+    for side in ("encode", "decode"):
+        pick.setdefault(side, ("unknown", prog.func("Multiplexer.encode_into_pdu").node.lineno))
     (he, le), (hd, ld) = pick["encode"], pick["decode"]
     rel = prog.func("Multiplexer.encode_into_pdu").module.rel
     if "unknown" in (he, hd) or he == hd == "first":
